@@ -24,6 +24,10 @@ type GenInput struct {
 	Template  string         `json:"template"`
 	Formatter string         `json:"formatter"`
 	Options   map[string]any `json:"options"`
+	// where each option is written: top | package | interface | iface-over-package (the package says the
+	// opposite) | split (the package says the opposite, only the first interface sets the value: the interfaces
+	// of one output file then have different effective values)
+	OptLevels map[string]string `json:"optLevels,omitempty"`
 	// names of interfaces that are also declared as function-local types (inside a function
 	// body / inside a function literal of a package-level initialiser)
 	LocalTypes []string `json:"localTypes"`
@@ -79,6 +83,10 @@ func genGen(r *rand.Rand, idx int, stream string) GenInput {
 				in.Options[k] = r.Intn(2) == 0
 			}
 		}
+	}
+	in.OptLevels = map[string]string{}
+	for _, k := range sortedKeys(in.Options) {
+		in.OptLevels[k] = pick(r, []string{"top", "top", "package", "interface", "iface-over-package", "split", "split"})
 	}
 	// keep the main stream inside the guard: parameter names away from the templates' own identifiers
 	for i := range in.Data.Ifaces {
@@ -297,15 +305,33 @@ func (p c01) Run(c *Ctx, raw json.RawMessage) Case {
 		fmt.Fprintf(&cfg, "dir: %s\npkgname: mocks\nfilename: mocks.go\n", filepath.Join(dir, "mocks"))
 		mockFile = "mocks/mocks.go"
 	}
-	if len(in.Options) > 0 {
+	var names []string
+	for _, it := range d.Ifaces {
+		names = append(names, it.Name)
+	}
+	topTD, pkgTD, ifaceTD := levelledOptions(in.Options, in.OptLevels, names)
+	if len(topTD) > 0 {
 		cfg.WriteString("template-data:\n")
-		for _, k := range sortedKeys(in.Options) {
-			fmt.Fprintf(&cfg, "  %s: %v\n", k, in.Options[k])
+		for _, l := range topTD {
+			cfg.WriteString("  " + l + "\n")
 		}
 	}
-	fmt.Fprintf(&cfg, "packages:\n  %s:\n    interfaces:\n", pkgSrc)
+	fmt.Fprintf(&cfg, "packages:\n  %s:\n", pkgSrc)
+	if len(pkgTD) > 0 {
+		cfg.WriteString("    config:\n      template-data:\n")
+		for _, l := range pkgTD {
+			cfg.WriteString("        " + l + "\n")
+		}
+	}
+	cfg.WriteString("    interfaces:\n")
 	for _, it := range d.Ifaces {
 		fmt.Fprintf(&cfg, "      %s:\n", it.Name)
+		if ls := ifaceTD[it.Name]; len(ls) > 0 {
+			cfg.WriteString("        config:\n          template-data:\n")
+			for _, l := range ls {
+				cfg.WriteString("            " + l + "\n")
+			}
+		}
 	}
 	files[".mockery.yml"] = cfg.String()
 	if err := writeFiles(dir, files); err != nil {
@@ -414,4 +440,39 @@ func (p c01) Run(c *Ctx, raw json.RawMessage) Case {
 	}
 	nontrivial := len(d.Ifaces) > 0
 	return Case{Impl: impl, Oracle: or, Nontrivial: nontrivial, Tags: tags, Finding: finding}
+}
+
+// levelledOptions spreads boolean template-data options over the configuration levels (see GenInput.OptLevels):
+// the lines of the top-level, package-level and per-interface template-data maps.
+func levelledOptions(opts map[string]any, levels map[string]string, ifaces []string) (top, pkg []string, iface map[string][]string) {
+	iface = map[string][]string{}
+	for _, k := range sortedKeys(opts) {
+		v := opts[k]
+		line := fmt.Sprintf("%s: %v", k, v)
+		opp := line
+		if b, ok := v.(bool); ok {
+			opp = fmt.Sprintf("%s: %v", k, !b)
+		}
+		switch levels[k] {
+		case "package":
+			pkg = append(pkg, line)
+		case "interface":
+			for _, n := range ifaces {
+				iface[n] = append(iface[n], line)
+			}
+		case "iface-over-package":
+			pkg = append(pkg, opp)
+			for _, n := range ifaces {
+				iface[n] = append(iface[n], line)
+			}
+		case "split":
+			pkg = append(pkg, opp)
+			if len(ifaces) > 0 {
+				iface[ifaces[0]] = append(iface[ifaces[0]], line)
+			}
+		default:
+			top = append(top, line)
+		}
+	}
+	return
 }
